@@ -32,7 +32,7 @@ func init() {
 			"the scheduler is sampled, not enumerated; evidence reports rotations/seals overlapping reader calls and hook hits per point",
 			"a stall is decided by the orchestrator's wall-clock watchdog and reported as inconclusive with a goroutine dump",
 		},
-		Batches: tiered(16, 128),
+		Batches: tiered(32, 256),
 		Run:     runC07,
 		Race:    true,
 		Par:     8,
